@@ -2148,3 +2148,20 @@ package yqlib
 //@   requires e != nil
 //@   modifies e.leadingContent
 //@   ensures @the-comment-of-this-document-only {C18} e.leadingContent == content && result == nil
+
+// operator_add.go: map + map (also `+=` and the shallow half of merges). The result starts as copies of the left
+// map's entries; every entry of the right map is then looked up by its key among the result's keys, one after the
+// other, none skipped: a key that is not there is appended with its value, a key that is there takes the right
+// map's value (C01: the value of `a + b`; C02: `p += e` gives each match that value)
+//@ func addMaps
+//@   props C01 C02
+//@   nosafety
+//@   nopre
+//@   noframe
+//@   at AddChildren: assert @the-left-entries-first {C01,C02} arg0 == target && arg1 == lhsC.Content
+//@   at findKeyInMap: assert @a-right-key-is-looked-up-among-the-result-keys {C01,C02} arg0 == target && arg1 == rhsC.Content[index]
+//@   at AddKeyValueChild: assert @a-new-key-is-appended-with-its-own-value {C01,C02} arg0 == target && arg1 == rhsC.Content[index] && arg2 == rhsC.Content[index+1] && resultOf(findKeyInMap) < 0
+//@   at CopyAsReplacement: assert @an-existing-key-takes-the-right-value {C01,C02} resultOf(findKeyInMap) >= 0 && arg0 == target.Content[resultOf(findKeyInMap)+1] && arg1 == rhsC.Content[index+1]
+//@   at return: assert @every-right-entry-was-appended-or-replaced {C01,C02} calls(AddKeyValueChild) + calls(CopyAsReplacement) == calls(findKeyInMap)
+//@   loop 1:
+//@     invariant @every-right-entry-so-far {C01,C02} 0 <= index && index % 2 == 0 && callsHere(findKeyInMap) * 2 == index && calls(AddKeyValueChild) + calls(CopyAsReplacement) == calls(findKeyInMap)
